@@ -544,6 +544,10 @@ func TestVerifC06Server(t *testing.T) {
 		if c.peer == nil {
 			t.Fatal("peer not found")
 		}
+		// establish() overwrites fsm.state: only after the peer's real FSM goroutine has read it
+		if !vAwaitFSMIdle(c.peer) {
+			t.Fatal("the FSM goroutine did not reach idle()")
+		}
 		c.h = &fsmHandler{fsm: c.peer.fsm, outgoing: channels.NewInfiniteChannel()}
 		c.h.callback = func(f *fsmMsg) {
 			c.got = append(c.got, f)
